@@ -122,6 +122,18 @@ def modelTableShape : List Tok :=
   ["get", "borrow", "get", "cloned", "match", "Some", "None", "borrow_mut", "insert", "clone", "clone",
    "contains", "borrow", "contains"]
 
+/-- the second known form of `get`: after the miss, take the write lock, look the name up AGAIN and hand out a clone of
+    the stored element if it is there now, otherwise insert and hand out a clone of the requested name
+    (`writeStepRecheck` = `writeStep true` of the model; stored and requested name are equal texts either way) -/
+def modelTableShapeRecheck : List Tok :=
+  ["get", "borrow", "get", "cloned", "match", "Some", "None", "borrow_mut", "match", "get", "Some", "clone", "None",
+   "insert", "clone", "clone", "contains", "borrow", "contains"]
+
+/-- (table words of the rayon `impl`, the `retStored` variant of the model it is) -/
+def knownTableShapes : List (List Tok × Bool) := [(modelTableShape, false), (modelTableShapeRecheck, true)]
+
+def isTableImpl (s : Site) : Bool := s.file = "names.rs" && s.kind = "impl"
+
 def isInfix (p l : List Tok) : Bool :=
   match l with
   | [] => p.isEmpty
